@@ -177,6 +177,8 @@ fk_tick(long long us)
 
 /* hook: called when poll would block forever with nothing scheduled */
 static void (*fk_quiescent_fn)(void);
+/* hook: number of library allocations so far (reported with the quiescent event, so that fault enumeration sees the whole run) */
+static long (*fk_allocs_fn)(void);
 
 int __wrap_poll(struct pollfd *, nfds_t, int);
 int
@@ -218,7 +220,7 @@ __wrap_poll(struct pollfd * fds, nfds_t n, int timeout)
 			FK_CLOCK("c0", c0); FK_CLOCK("c1", fk_clock_us); vt_bool("blocked", 1); vt_end();
 			if (fk_quiescent_fn != NULL)
 				fk_quiescent_fn();
-			vt_begin("quiescent"); vt_end();
+			vt_begin("quiescent"); if (fk_allocs_fn != NULL) vt_int("allocs", fk_allocs_fn()); vt_end();
 			vt_flush();
 			_exit(0);
 		}
